@@ -528,6 +528,9 @@ fn corruptions(doc: &str, inserts: &[&str]) -> Vec<String> {
 
 fn check_text(cx: &mut Ctx, t: &mut Tally, fmt: &str, text: &str, family: &str) {
     match cx.from_text(fmt, text) {
+        Res::Panic(p) if p.contains("toml_parser") && p.contains("decoder/scalar.rs") => {
+            t.fails.push((Some("toml-parser-debug-assertion".into()), format!("[{family}] panic: {fmt}.from_string({text:?}) panicked: {p}"), format!("format: {fmt}\ntext: {text:?}\npanic: {p}\n")));
+        }
         Res::Panic(p) => t.fail(family, "panic", format!("{fmt}.from_string({text:?}) panicked: {p}"), format!("format: {fmt}\ntext: {text:?}\n")),
         Res::Err(_) => t.ok(family, "err"),
         Res::Ok(v) => {
@@ -610,6 +613,17 @@ pub fn run(args: &Args) -> i32 {
     trees.extend(leaves.iter().cloned());
     trees.extend(level1.iter().cloned());
     trees.extend(level2.iter().cloned());
+    // floats on a two-digit-mantissa x exponent grid (decimal <-> binary conversion both ways)
+    for d in 1..=99i32 {
+        for e in (-120..=120).step_by(tier.pick(7, 1)) {
+            if let Ok(f) = format!("{d}e{e}").parse::<f64>() {
+                trees.push(J::Float(f.to_bits()));
+                // and its neighbours
+                trees.push(J::Float(f.to_bits() + 1));
+                trees.push(J::Float(f.to_bits() - 1));
+            }
+        }
+    }
     // every tree also as the value of a top-level map (TOML needs a map at the top)
     let wrapped: Vec<J> = trees.iter().map(|v| J::Map(vec![("top".to_string(), v.clone())])).collect();
     trees.extend(wrapped);
